@@ -394,22 +394,66 @@ def rule_r1(F, rep):
                               f.body.span(s["sp"]))
 
 
+def _new_callees(F, fn):
+    """fn and, transitively, the local functions it calls that did not exist on the reference tree (extracted helpers)"""
+    out, seen = [fn], {fn.q}
+    for g in out:
+        for bb, t in g.body.calls():
+            q = t["f"].get("r") if t["f"].get("rlocal") else None
+            if q and q not in seen and F.is_new_fn(q):
+                h = F.fn_opt(q)
+                if h is not None and h.body is not None:
+                    seen.add(q)
+                    out.append(h)
+    return out
+
+
 def rule_r4(F, rep):
     import ast as _ast
     R = rep.rule("C14.R4", "line terminators inside a text block are copied verbatim: every constant \\r / \\n / \\r\\n appended to "
                  "the block's value is appended on the success edge of the lexer step that consumed exactly those bytes, with "
                  "no other consuming step in between (so the value keeps CRLF line ends where the source has them)")
     fn = F.fn("<%s>::lex_text_block" % LEXER)
-    rep.fn(fn)
-    body = fn.body
-    P = prov.Prov(F, body)
-    succ = body.succ_map()
-    pred = body.pred_map()
+    # The text block is lexed by lex_text_block together with the helpers split off from it after the reference tree: the
+    # rule works on their joint control-flow graph (nodes (function index, block); a call of such a helper leads to the
+    # helper's entry and the helper's returns lead back to the block after the call), so that it sees the same steps
+    # whether they are written in line or in a helper.
+    fns = _new_callees(F, fn)
+    rep.fn(*fns)
+    index = {g.q: i for i, g in enumerate(fns)}
+    provs = [prov.Prov(F, g.body) for g in fns]
+    sites = {}                       # helper index -> [(caller index, call block)]
+    succ, pred = {}, {}
 
-    def const_bytes(op):
+    def edge(a, b):
+        succ.setdefault(a, []).append(b)
+        succ.setdefault(b, [])
+        pred.setdefault(b, []).append(a)
+    for i, g in enumerate(fns):
+        gs = g.body.succ_map()
+        for b, blk in enumerate(g.body.blocks):
+            succ.setdefault((i, b), [])
+            if blk["cleanup"]:
+                continue
+            t = blk["t"]
+            q = t["f"].get("r") if t["k"] in ("call", "tailcall") and t["f"].get("rlocal") else None
+            j = index.get(q) if q else None
+            if j is not None and j != 0:
+                sites.setdefault(j, []).append((i, b))
+                edge((i, b), (j, 0))
+                if t.get("t") is not None:
+                    for r, rblk in enumerate(fns[j].body.blocks):
+                        if not rblk["cleanup"] and rblk["t"]["k"] == "return":
+                            edge((j, r), (i, t["t"]))
+                continue
+            for x in gs[b]:
+                if not g.body.blocks[x]["cleanup"]:
+                    edge((i, b), (i, x))
+
+    def const_bytes(i, op, depth=0):
         if op["k"] == "const" and isinstance(op.get("v"), int):
             return bytes([op["v"]]) if op["v"] < 256 else None
-        org = P.origins_op(op)
+        org = provs[i].origins_op(op)
         if len(org) == 1:
             o = next(iter(org))
             if o[0] == "const" and isinstance(o[1], str):
@@ -419,30 +463,39 @@ def rule_r4(F, rep):
                     except Exception:
                         return None
                 return o[1].encode()
+            if o[0] == "arg" and isinstance(o[1], int) and i != 0 and depth < 3:
+                # a parameter of an extracted helper: the value handed over at its call sites
+                vals = {const_bytes(ci, fns[ci].body.blocks[cb]["t"]["xs"][o[1] - 1], depth + 1)
+                        for ci, cb in sites.get(i, ()) if 1 <= o[1] <= len(fns[ci].body.blocks[cb]["t"]["xs"])}
+                if len(vals) == 1:
+                    return next(iter(vals))
+                if any(v and set(v) <= {13, 10} for v in vals):
+                    raise kwalk.WalkLimit("%s receives different byte constants from its call sites" % fns[i].q)
         return None
     eats = {}
-    for bb, t in body.calls():
-        n = callee_name(t) or ""
-        if n.startswith("<%s>::eat_" % LEXER):
-            c = const_bytes(t["xs"][1]) if len(t["xs"]) > 1 and n.rsplit("::", 1)[1] in ("eat_byte", "eat_slice") else None
-            eats[bb] = (n.rsplit("::", 1)[1], c, t)
     pushes = []
-    for bb, t in body.calls():
-        n = callee_name(t) or ""
-        if n in ("<alloc::string::String>::push", "<alloc::string::String>::push_str"):
-            c = const_bytes(t["xs"][1])
-            if c is not None and c and set(c) <= {13, 10}:
-                pushes.append((bb, c, t))
+    for i, g in enumerate(fns):
+        for bb, t in g.body.calls():
+            n = callee_name(t) or ""
+            if n.startswith("<%s>::eat_" % LEXER):
+                c = const_bytes(i, t["xs"][1]) if len(t["xs"]) > 1 and n.rsplit("::", 1)[1] in ("eat_byte", "eat_slice") else None
+                eats[(i, bb)] = (n.rsplit("::", 1)[1], c, t)
+    for i, g in enumerate(fns):
+        for bb, t in g.body.calls():
+            n = callee_name(t) or ""
+            if n in ("<alloc::string::String>::push", "<alloc::string::String>::push_str"):
+                c = const_bytes(i, t["xs"][1])
+                if c is not None and c and set(c) <= {13, 10}:
+                    pushes.append(((i, bb), c, t))
     for pb, c, t in pushes:
+        pbody = fns[pb[0]].body
         # eat steps that can reach this push without another eat step in between
         last = {}
         seen = {pb}
         work = [pb]
         while work:
             b = work.pop()
-            for q in pred.get(b, ()) if isinstance(pred, dict) else pred[b]:
-                if body.blocks[q]["cleanup"]:
-                    continue
+            for q in pred.get(b, ()):
                 if q in eats:
                     last.setdefault(q, set()).add(b)
                     continue
@@ -459,23 +512,26 @@ def rule_r4(F, rep):
                 continue
             # must be on the success edge: the result is switched right after the call; the push must not be
             # reachable from the failure edge without another consuming step
+            ebody = fns[e[0]].body
             cont = et["t"]
-            sw = body.blocks[cont]["t"] if cont is not None else None
+            sw = ebody.blocks[cont]["t"] if cont is not None else None
             if not sw or sw["k"] != "switch":
+                if e[0] != 0 and sw and sw["k"] == "return":
+                    raise kwalk.WalkLimit("%s hands the result of %s back to its caller untested" % (fns[e[0]].q, kind))
                 probs.append("%s's result is not tested before the push" % kind)
                 continue
-            fail = [tb for v, tb in sw["arms"] if v == 0]
+            fail = [(e[0], tb) for v, tb in sw["arms"] if v == 0]
             blocked = [b for b in eats]
             reach = cfg.reachable(succ, fail, blocked_nodes=blocked) if fail else set()
             if pb in reach or pb in fail:
                 probs.append("it is reachable when %s(%r) failed" % (kind, ec))
         ok = not probs
-        rep.ob(R, "push|%r@%s" % (c, body.span(t["sp"]).rsplit(":", 2)[-2]), ok, {"appended": repr(c), "site": body.span(t["sp"]),
-                                                                            "after": sorted("%s(%r)" % (eats[e][0], eats[e][1]) for e in last)})
+        rep.ob(R, "push|%r@%s" % (c, pbody.span(t["sp"]).rsplit(":", 2)[-2]), ok, {"appended": repr(c), "site": pbody.span(t["sp"]),
+                                                                             "after": sorted("%s(%r)" % (eats[e][0], eats[e][1]) for e in last)})
         if not ok:
             rep.violation(R, "lex_text_block|terminator-copy|%r" % c,
                           "lex_text_block appends %r to the text block although %s: the value no longer repeats the line "
-                          "terminator bytes of the source" % (c, "; ".join(probs)), body.span(t["sp"]))
+                          "terminator bytes of the source" % (c, "; ".join(probs)), pbody.span(t["sp"]))
     rep.floor(R, len(pushes), 4, "line-terminator appends in lex_text_block")
 
 
